@@ -167,6 +167,8 @@ class Substance(object):
                 raise KeyError("Cannot give both charge and composition[0]")
         else:
             if charge is not None and composition is not None:
+                # do not write into the mapping owned by the caller:
+                self.composition = dict(composition)
                 self.composition[0] = charge
         self.data = data or {}
 
